@@ -21,6 +21,10 @@ def cases_for(tier, rng, structure=False):
     add("empty-root", [srv.dnode(["d"], 1500000000)])
     for i in range(40 if not full else 400):
         add("small%d" % i, isotrees.small_tree(rng, max_nodes=rng.choice([1, 2, 3, 5, 8])), osfs=(i % 4 == 0))
+    for rn in ["Some Game Folder 01", "BLES01234-" + "X" * 40]:     # the image's own directory has a long name
+        cases.append({"name": "root-%d" % len(rn), "nodes": [srv.dnode([rn], 1500000000), srv.fnode([rn, "a.bin"], 2049, cid="rt%d" % len(rn), mtime=1500000001),
+                                                              srv.dnode([rn, "sub"], 1500000002), srv.fnode([rn, "sub", "b.bin"], 1, cid="rs%d" % len(rn), mtime=1500000003)],
+                      "dir": [rn], "ps3": False, "titleId": ["", ""], "decode": True, "osfs": False, "noCanon": False, "ops": []})
     add("deep8", isotrees.deep_tree(rng, 7))
     add("wide40", isotrees.wide_tree(rng, 40, 3))
     add("wide300", isotrees.wide_tree(rng, 300 if full else 120, 10))
